@@ -10,7 +10,7 @@ import shutil
 import tempfile
 from pathlib import Path
 
-from ..core.runner import HarnessError
+from ..core.runner import HarnessError, guarded
 from ..ref import formats as F
 
 LEVEL = "exploration"
@@ -671,14 +671,14 @@ def run(ctx):
     outcomes = {}
     n = 0
     with mp.get_context("fork").Pool(ctx.workers, maxtasksperchild=1) as pool:
-        for k, viols, outcome in pool.imap_unordered(run_cfg, [(c, w, str(workroot)) for c, w in cfgs]):
+        for k, viols, outcome in pool.imap_unordered(guarded(run_cfg), [(c, w, str(workroot)) for c, w in cfgs]):
             n += k
             outcomes[outcome] = outcomes.get(outcome, 0) + 1
             ctx.absorb(viols)
         ecfgs = export_configs(ctx.tier)
         eoutcomes = {}
         nexp = 0
-        for k, viols, outcome in pool.imap_unordered(run_export_cfg, [(d, w, str(workroot)) for d, w in ecfgs]):
+        for k, viols, outcome in pool.imap_unordered(guarded(run_export_cfg), [(d, w, str(workroot)) for d, w in ecfgs]):
             nexp += k
             outcome = outcome.split(":")[0]
             eoutcomes[outcome] = eoutcomes.get(outcome, 0) + 1
@@ -688,7 +688,7 @@ def run(ctx):
         else:
             ex = [(i, e) for i, e in enumerate(EXAMPLES) if not e.startswith("ism")]
         nex = 0
-        for k, viols in pool.imap_unordered(run_example, [(i, e, str(workroot)) for i, e in ex]):
+        for k, viols in pool.imap_unordered(guarded(run_example), [(i, e, str(workroot)) for i, e in ex]):
             nex += k
             ctx.absorb(viols)
     ctx.assumptions += [
